@@ -278,7 +278,28 @@ func (w *cbWalker) call(fr *cbFrame, c *ast.CallExpr, spawned bool) {
 		}
 	}
 	if fl, ok := fun.(*ast.FuncLit); ok {
+		// a literal called on the spot: its parameters carry the origins of the arguments (`go func(f …) { f(msg) }(cb)`)
+		var bound []string
+		i := 0
+		if fl.Type.Params != nil {
+			for _, f := range fl.Type.Params.List {
+				for _, n := range f.Names {
+					if i < len(c.Args) {
+						if k := w.kindOf(fr, c.Args[i]); k != "" {
+							if _, had := fr.taint[n.Name]; !had {
+								fr.taint[n.Name] = k
+								bound = append(bound, n.Name)
+							}
+						}
+					}
+					i++
+				}
+			}
+		}
 		w.lit(fr, fl, spawned)
+		for _, n := range bound {
+			delete(fr.taint, n)
+		}
 		return
 	}
 	if callee := w.callee(fr, c); callee != nil && callee.Body != nil && fr.depth < 4 {
